@@ -23,6 +23,13 @@ def run(tier):
         a, b = souts[s["id"]]["res"], outs[int(s["id"][1:])]["res"]
         if not vlib.jeq(a, b):
             rep.violation("alias:%s" % s["id"], s, a, b, "tls_parser and parse_tls_plaintext differ on the same input")
+    # (growth) random handshake records among random neighbours of the other content types through the multi-record entry point (MC_C04_Rand)
+    dr, rres, rcases = vlib.tlc_chunked(PROP, "rand", "MC_C04_Rand", nchunks=12, env={"VERIF_SEED": str(vlib.seed())})
+    rep.add_tlc("MC_C04_Rand", rres)
+    many = [c for c in rcases if c["fn"] == "tls_parser_many"]
+    mouts = vlib.replay_cases(binary, dr, many, name="rand_many")
+    vlib.judge_cases(rep, many, mouts, keyf=lambda c: "rand:many:%s" % c["id"])
+    rep.cov["traces_validated_against_impl"] += len(many)
     # (growth) every length of the variable-size fields, not only the boundaries (MC_LenSweep)
     common.len_sweep(rep, binary, PROP)
     return rep.finish("model_checking",
